@@ -37,7 +37,7 @@ def worker_init():
 def plan(tier, seed):
     n = 200_000 if tier == "quick" else 3_000_000
     size = 2500 if tier == "quick" else 10000
-    tasks = pool.batches("gen", n, size) + pool.batches("sweep", 4000 if tier == "quick" else 40000, 1000)
+    tasks = pool.batches("gen", n, size) + pool.batches("sweep", 4000 if tier == "quick" else 40000, 1000) + pool.batches("large", 28 if tier == "quick" else 140, 2)
     return dict(tasks=tasks, nworkers=14, time_cap=100 if tier == "quick" else 900)
 
 
@@ -116,6 +116,20 @@ def _programs():
 
 def gen_case(task, i):
     r = rng(seed_env(), ID, task["stream"], i)
+    if task["stream"] == "large":
+        # texts whose JSON form passes 64 KiB, 1 MiB, 4 MiB (size limits, chunked decompression)
+        target = [65000, 65536, 70000, 1 << 20, (1 << 20) + 17, 1_300_000, 3_000_000][i % 7] + r.randrange(0, 40)
+        kind = (i // 7) % 4
+        if kind == 0:
+            body = "db.Setting = 1\n" * (target // 15 + 1)
+        elif kind == 1:
+            body = "".join(r.choice(_ALPH[0]) for _ in range(2000)) * (target // 2000 + 1)
+        elif kind == 2:
+            body = "日本語中文" * (target // 30 + 1)  # 6 bytes of JSON text per character
+        else:
+            body = "".join(chr(r.randrange(32, 127)) for _ in range(target))
+        counters_hint = len(json.dumps(body))
+        return dict(d={"code": body, "options": {"compact": bool(i & 1)}}, json_len=counters_hint)
     if task["stream"] == "sweep":
         # sweep lengths so that every base64 residue and padding length occurs
         n = i % 700
@@ -143,6 +157,9 @@ def gen_case(task, i):
 def check_case(case):
     d = case["d"]
     counters = {"roundtrips": 1}
+    if case.get("json_len"):
+        counters["json_over_64KiB"] = int(case["json_len"] > 65536)
+        counters["json_over_1MiB"] = int(case["json_len"] > (1 << 20))
     js = json.dumps(d)
     for name, pat in (("crlf", "\\r\\n"), ("lone_cr", "\\r"), ("unicode_line_separator", "\\u2028"), ("bom", "\\ufeff")):
         if pat in js:
@@ -192,7 +209,7 @@ def run_case(task, i):
 
 def finish(agg, tier):
     c = agg["counters"]
-    need = ["std_has_plus", "std_has_slash", "pad_0", "pad_1", "pad_2", "text_with_crlf", "text_with_lone_cr", "text_with_unicode_line_separator"]
+    need = ["std_has_plus", "std_has_slash", "pad_0", "pad_1", "pad_2", "text_with_crlf", "text_with_lone_cr", "text_with_unicode_line_separator", "json_over_1MiB"]
     missing = [k for k in need if not c.get(k)]
     if missing or c.get("roundtrips", 0) < 1000:
         return dict(inconclusive=f"monitor never saw: {missing} (roundtrips={c.get('roundtrips', 0)})")
